@@ -66,13 +66,22 @@ pub fn scripts() -> Vec<Script> {
     for k in 1..=2u64 {
         out.push(Script { name: format!("disjoint{}", k), draws: m3::base_draws(100 + k), kind: Kind::Disjoint });
     }
-    // informational only: the five top blinders (degenerate, excused) and two
-    // non-top ones
-    for i in [1usize, 3, 5, 7, 10, 0, 11] {
+    // a draw that is zero: a degenerate top blinder may make the prover fail
+    // (excused), but whenever a proof comes out it must have consumed exactly
+    // the 14 draws and equal the reference prover's proof for those draws
+    for i in 0..14 {
         let mut d = base;
         d[i] = zero();
         out.push(Script { name: format!("zero{}", i), draws: d, kind: Kind::Zero(i) });
     }
+    // both blinders of one polynomial zero (it is committed unmasked), and all 14
+    for (i, j) in [(0usize, 1usize), (2, 3), (4, 5), (6, 7), (11, 12)] {
+        let mut d = base;
+        d[i] = zero();
+        d[j] = zero();
+        out.push(Script { name: format!("zero{}+{}", i, j), draws: d, kind: Kind::Zero(i) });
+    }
+    out.push(Script { name: "zero-all".into(), draws: [zero(); 14], kind: Kind::Zero(0) });
     out
 }
 
@@ -508,7 +517,7 @@ fn case_json(c: &Circ, wi: usize, s: &Script) -> serde_json::Value {
 
 pub fn main(tier: Tier, replay: Option<serde_json::Value>) -> i32 {
     let mut run = Run::new("C06", tier, "model_checking");
-    run.rule = "cases = circuits x witnesses x RNG scripts (base; each of the 14 draws replaced by 1, -1, rho; every pair of draws forced equal; two fully disjoint scripts; informational zero-draw scripts); every case runs the real prover under the scripted RNG, the reference prover M3 on the parsed keys, and the masking formulas from the witness table; non-trivial = distinct (circuit, witness, script) whose real proof was produced and judged".into();
+    run.rule = "cases = circuits x witnesses x RNG scripts (base; each of the 14 draws replaced by 1, -1, rho; every pair of draws forced equal; two fully disjoint scripts; each of the 14 draws replaced by zero: draw count and equality with M3 whenever a proof is produced); every case runs the real prover under the scripted RNG, the reference prover M3 on the parsed keys, and the masking formulas from the witness table; non-trivial = distinct (circuit, witness, script) whose real proof was produced and judged".into();
     let circs = match circuits(tier) {
         Ok(c) => c,
         Err(e) => {
@@ -604,6 +613,19 @@ pub fn main(tier: Tier, replay: Option<serde_json::Value>) -> i32 {
                 _ => "m3-n/a",
             };
             run.outcome(&format!("info:zero-{}:{}:{}", DRAW_NAMES[i], outcome, eq));
+            if o.real.is_ok() {
+                clauses += 2;
+                run.traces_validated += 1;
+                run.nontrivial(fnv(format!("{}|{}|{}", c.name, wi, s.name).as_bytes()));
+                let want: Vec<Call> = (0..14).map(|_| Call::FillBytes(64)).collect();
+                if o.calls != want {
+                    run.outcome("clause-a:fail");
+                    run.violation(&format!("clause-a/calls/circuit={}/script={}", c.name, s.name), &format!("{} witness {} script {}: RNG calls {}, expected 14 x fill_bytes(64) (a zero draw is a draw like any other)", c.name, wi, s.name, summarize_calls(&o.calls)), case_json(c, *wi, s));
+                } else if eq == "m3-differs" {
+                    run.outcome("m3-equality:fail");
+                    run.violation(&format!("zero-draw-m3-differs/circuit={}/script={}", c.name, s.name), &format!("{} witness {} script {}: the proof differs from the reference prover's proof for the same 14 draws", c.name, wi, s.name), case_json(c, *wi, s));
+                }
+            }
             continue;
         }
         let dis_owned = find(*ci, *wi, &|s| s.kind == Kind::Disjoint || s.kind == Kind::Base);
